@@ -438,7 +438,7 @@ fn c06_one(case: &JoinCase, stats: &mut Stats, prop: &'static str, filter: fn(&S
 }
 
 fn c06_run(ctx: &ShardCtx) -> ShardResult {
-    let cases = ctx.tier.pick(400, 12_000);
+    let cases = ctx.tier.pick(500, 12_000);
     run_proptest(ctx, join_case(), cases, 6, |c, stats| c06_one(c, stats, "C06", |_| true))
 }
 
@@ -689,7 +689,7 @@ fn c07_one(case: &ParCase, stats: &mut Stats, prop: &'static str, filter: fn(&Pa
 }
 
 fn c07_run(ctx: &ShardCtx) -> ShardResult {
-    let cases = ctx.tier.pick(350, 10_000);
+    let cases = ctx.tier.pick(450, 10_000);
     run_proptest(ctx, par_case(), cases, 7, |c, stats| c07_one(c, stats, "C07", |_| true))
 }
 
@@ -1021,7 +1021,7 @@ fn cs_one(case: &CsCase, prop: &'static str) -> Result<CsFacts, Violation> {
 }
 
 fn c16_run(ctx: &ShardCtx) -> ShardResult {
-    let cases = ctx.tier.pick(1500, 40_000);
+    let cases = ctx.tier.pick(8000, 40_000);
     run_proptest(ctx, cs_case(false), cases, 16, |c, stats| {
         let f = cs_one(c, "C16")?;
         stats.label(&format!("mode.{}", ["mutable-joins", "consume", "consume-with-storage", "clear-reuse"][c.mode as usize % 4]));
@@ -1047,7 +1047,7 @@ pub fn c16() -> Property {
 }
 
 fn c08_cs_run(ctx: &ShardCtx) -> ShardResult {
-    let cases = ctx.tier.pick(600, 15_000);
+    let cases = ctx.tier.pick(2000, 15_000);
     run_proptest(ctx, cs_case(false), cases, 17, |c, stats| {
         let f = cs_one(c, "C16")?;
         stats.case(c, f.nontrivial && (c.mode % 4 == 1 || c.mode % 4 == 3));
@@ -1067,7 +1067,7 @@ pub fn c08_changeset_sub() -> SubCheck {
 }
 
 fn c19_cs_run(ctx: &ShardCtx) -> ShardResult {
-    let cases = ctx.tier.pick(300, 8000);
+    let cases = ctx.tier.pick(1000, 8000);
     run_proptest(ctx, cs_case(true).prop_map(|mut c| { c.mode = 3; c }), cases, 18, |c, stats| {
         let f = cs_one(c, "C19")?;
         if f.fired {
